@@ -389,13 +389,14 @@ def pair2(ka: int, kb: int, ca: int, cb: int, ta: int, tb: int, out_exists: bool
     if d1 is None:
         return True
     r1 = run(d1, ["b", "a"])
+    e1 = spec(d1)  # (the specification looks at the in-memory directory: take it before D2 replaces D1)
     d1 = dict(d1)
     d2 = make_world(slots, [ka, kb], [ca, cb], [tmap[ta], tmap[tb]], out_exists)
     if d2 is None:
         return True
     r2 = run(d2, ["a", "b"])
     reach()
-    e1, e2 = spec(d1), spec(d2)
+    e2 = spec(d2)
     if (r1 == "ERR") != (e1 == "ERR") or (r2 == "ERR") != (e2 == "ERR"):
         return False  # a symlink leading outside must be rejected, and only that
     if r1 == "ERR" or r2 == "ERR":
